@@ -1536,6 +1536,32 @@ func (h *history) probeSweep() {
 		}
 		return c
 	}
+	// Range with a bound that differs from a stored key in exactly one byte (possibly a byte of a compressed path
+	// that the node does not store): against the stored key itself, against another stored key, and against the
+	// same mutation of another stored key (both bounds absent, their common beginning runs through the mutated byte)
+	canRange := h.cfg.collName == "" && !strings.HasPrefix(h.cfg.spec, "coll")
+	rangeProbe := func(m, orig string, mutate func(other string) (string, bool)) {
+		if !canRange || h.s.dead[h.id] || m == "-" {
+			return
+		}
+		others := []string{orig, pick(r, h.order)}
+		if o := pick(r, h.order); o != orig {
+			if mo, ok := mutate(o); ok {
+				others = append(others, mo)
+			}
+		}
+		for _, o := range others {
+			a, b := m, o
+			if r.Intn(2) == 0 {
+				a, b = b, a
+			}
+			if (h.cfg.alpha && b == "-") || !h.rangeOK(a, b) {
+				continue
+			}
+			h.s.exec("seq", h.id, "range", a, b, "0", "1")
+			h.s.tr.stats["range-probe-sweep"]++
+		}
+	}
 	for _, lit := range keys {
 		if h.s.dead[h.id] {
 			return
@@ -1555,6 +1581,23 @@ func (h *history) probeSweep() {
 						mp[fi] = canonNum(fields[fi], mp[fi])
 					}
 					probe(strings.Join(mp, ","), n)
+					if n%2 == 0 && mp[fi] != "nan" && mp[fi] != "-" {
+						fi, i := fi, i
+						x := mp[fi]
+						rangeProbe(strings.Join(mp, ","), lit, func(other string) (string, bool) {
+							op := strings.Split(other, ",")
+							if len(op) != len(parts) || op[fi] == "nan" || op[fi] == "-" || len(unhex(op[fi])) <= i {
+								return "", false
+							}
+							ob := unhex(op[fi])
+							ob[i] = unhex(x)[i]
+							op[fi] = hexLit(ob)
+							if fields[fi] == "f32" || fields[fi] == "f64" {
+								op[fi] = canonNum(fields[fi], op[fi])
+							}
+							return strings.Join(op, ","), true
+						})
+					}
 					n++
 				}
 			}
@@ -1570,6 +1613,25 @@ func (h *history) probeSweep() {
 				m = canonNum(h.cfg.numTy, m)
 			}
 			probe(m, i)
+			if i%2 == 0 && m != "nan" && m != "-" {
+				i := i
+				mb := unhex(m)
+				rangeProbe(m, lit, func(other string) (string, bool) {
+					if other == "nan" || other == "-" || len(mb) <= i {
+						return "", false
+					}
+					ob := unhex(other)
+					if len(ob) <= i {
+						return "", false
+					}
+					ob[i] = mb[i]
+					o := hexLit(ob)
+					if h.cfg.numTy != "" {
+						o = canonNum(h.cfg.numTy, o)
+					}
+					return o, true
+				})
+			}
 		}
 	}
 }
